@@ -132,6 +132,11 @@ theorem viewOf_get (n : Node) (k : Key) :
       exact ih
 
 
+theorem mem_viewOf {n : Node} {i : ItemView} (w : WF n) (h : i ∈ (viewOf n).items) :
+    ∃ k it, n.store.get k = some it ∧ i = itemView (k, it) := by
+  rcases List.mem_map.mp h with ⟨⟨k, it⟩, hkv, rfl⟩
+  exact ⟨k, it, Store.get_of_mem w.nodup hkv, rfl⟩
+
 /-! ## Domain of the histories -/
 
 def submitted : List Event → List Bundle
@@ -177,18 +182,9 @@ theorem pairwise_ne_of_mem {α} {R : α → α → Prop} {l : List α} (h : l.Pa
 
 /-! ## The invariant -/
 
-/-- The store's expiry of the item does not end before the obligation's lifetime. -/
-def ExpOk (ob : Obl) (it : Item) : Prop :=
-  ∀ t, lifetimeOk t ob.acceptedAt ob.b = true → ¬ it.expires < t
-
-/-- What the invariant says about one live obligation. -/
-structure OblOk (c : Cfg) (past : List Event) (n : Node) (ob : Obl) : Prop where
-  origin : if ob.strict then ob.b ∈ submitted past else ob.b ∈ received past
-  dst : hasEndpoint c ob.b.dst = false
-  hop : hopRefused ob.b = false
-  item : ∃ it, n.store.get ob.b.key = some it ∧ Stable it ∧ SameBody it.bundle ob.b ∧
-    (ob.strict = true → it.bundle.tag = ob.b.tag) ∧ ExpOk ob it
-
+/-- The part of the invariant the C13 theorems need along the histories of `Domain`: well-formed store,
+provenance of the store keys and of the IdKeeper entries, and the Spec's view of peers, clock and store.
+(The retention clause itself is proved without any domain hypothesis in `Dtn7.Lemmas.NodeFull`.) -/
 structure RInv (c : Cfg) (past : List Event) (s : SpecSt) (n : Node) : Prop where
   wf : WF n
   cfg : n.cfg = c
@@ -196,95 +192,22 @@ structure RInv (c : Cfg) (past : List Event) (s : SpecSt) (n : Node) : Prop wher
   prev : s.prev = viewOf n
   keysFrom : ∀ k it, n.store.get k = some it → ∃ e, (e ∈ submitted past ∨ e ∈ received past) ∧ e.key = k
   idkFrom : ∀ st, (lookupNat n.idk st).isSome = true → ∃ e ∈ submitted past, (e.src, e.ts) = st
-  obls : ∀ ob ∈ s.obls, OblOk c past n ob
   peers : s.peers = n.peers
   pnodup : (n.peers.map (·.addr)).Nodup
 
-theorem OblOk.frame {c : Cfg} {past past' : List Event} {n n' : Node} {ob : Obl}
-    (h : OblOk c past n ob) (hs : ∀ b, b ∈ submitted past → b ∈ submitted past')
-    (hr : ∀ b, b ∈ received past → b ∈ received past')
-    (hg : n'.store.get ob.b.key = n.store.get ob.b.key) : OblOk c past' n' ob := by
-  refine ⟨?_, h.dst, h.hop, ?_⟩
-  · have := h.origin
-    cases hstr : ob.strict
-    · simp only [hstr, Bool.false_eq_true, if_false] at this ⊢
-      exact hr _ this
-    · simp only [hstr, if_true] at this ⊢
-      exact hs _ this
-  · rw [hg]; exact h.item
+/-- What the clauses other than `Retained` need from the invariant. -/
+structure VInv (c : Cfg) (s : SpecSt) (n : Node) : Prop where
+  wf : WF n
+  cfg : n.cfg = c
+  now : s.now = n.now
+  prev : s.prev = viewOf n
+  peers : s.peers = n.peers
+  pnodup : (n.peers.map (·.addr)).Nodup
 
-/-- An item that satisfies the invariant is found by the Spec's lookup and is pending. -/
-theorem retained1_ok {c : Cfg} {past : List Event} {n : Node} {ob : Obl} (e : Event) (outs : List Output)
-    (hdom : Domain past) (w : WF n)
-    (hk : ∀ k it, n.store.get k = some it → ∃ e, (e ∈ submitted past ∨ e ∈ received past) ∧ e.key = k)
-    (h : OblOk c past n ob) : retainedFail1 ⟨e, outs, viewOf n⟩ ob = none := by
-  rcases h.item with ⟨it, hg, hst, hsb, htag, _⟩
-  unfold retainedFail1 Obl.item
-  simp only
-  by_cases hstrict : ob.strict = true
-  · simp only [hstrict, if_true]
-    have horig : ob.b ∈ submitted past := by
-      have := h.origin
-      simpa [hstrict] using this
-    -- some item matches, namely `it`
-    have hmem : itemView (ob.b.key, it) ∈ (viewOf n).items :=
-      List.mem_map.mpr ⟨(ob.b.key, it), Store.mem_of_get hg, rfl⟩
-    have hmatch : (fun i : ItemView => i.key.src == ob.b.src && i.key.ts == ob.b.ts && i.bundle.tag == ob.b.tag)
-        (itemView (ob.b.key, it)) = true := by
-      simp [itemView, Bundle.key, htag hstrict]
-    cases hf : (viewOf n).items.find?
-        (fun i : ItemView => i.key.src == ob.b.src && i.key.ts == ob.b.ts && i.bundle.tag == ob.b.tag) with
-    | none =>
-      have := List.find?_eq_none.mp hf _ hmem
-      exact absurd hmatch this
-    | some i =>
-      simp only
-      -- the item found lies under the key of the obligation's bundle
-      have hi := List.find?_some hf
-      have him := List.mem_of_find?_eq_some hf
-      rcases List.mem_map.mp him with ⟨⟨k', it'⟩, hkv, rfl⟩
-      simp only [itemView, Bool.and_eq_true, beq_iff_eq] at hi
-      have hg' := Store.get_of_mem w.nodup hkv
-      rcases hk k' it' hg' with ⟨e', he', hek⟩
-      have hst' : (e'.src, e'.ts) = (ob.b.src, ob.b.ts) := by
-        have h1 : e'.src = k'.src := by rw [← hek]; rfl
-        have h2 : e'.ts = k'.ts := by rw [← hek]; rfl
-        rw [h1, h2, hi.1.1, hi.1.2]
-      have hkk : k' = ob.b.key := by
-        rcases he' with he' | he'
-        · by_cases heq : e' = ob.b
-          · rw [← hek, heq]
-          · rcases pairwise_ne_of_mem hdom.subDistinct he' horig heq with h1 | h1
-            · exact absurd hst' h1
-            · exact absurd hst'.symm h1
-        · exact absurd hst'.symm (hdom.disjoint _ horig _ he')
-      subst hkk
-      rw [hg] at hg'
-      cases hg'
-      simp [itemView, hst.1]
-  · have hns : ob.strict = false := by cases h : ob.strict <;> simp_all
-    simp only [hns, Bool.false_eq_true, if_false]
-    rw [viewOf_get, hg]
-    simp [itemView, hst.1]
-
+theorem RInv.v {c : Cfg} {past : List Event} {s : SpecSt} {n : Node} (h : RInv c past s n) : VInv c s n :=
+  ⟨h.wf, h.cfg, h.now, h.prev, h.peers, h.pnodup⟩
 
 /-! ## One event -/
-
-theorem discharged_of_okSent {ob : Obl} {outs : List Output} {b0 : Bundle} (h : OkSent outs b0)
-    (ht : ob.strict = true → b0.tag = ob.b.tag) (hk : b0.key = ob.b.key) : ob.discharged outs = true := by
-  rcases h with ⟨p, b, hm, htag, hkey⟩
-  unfold Obl.discharged
-  apply List.any_eq_true.mpr
-  refine ⟨_, hm, ?_⟩
-  simp only [Bool.true_and]
-  cases hs : ob.strict
-  · simp [hkey, hk]
-  · simp [htag, ht hs]
-
-theorem discharged_append {ob : Obl} {a b : List Output} (h : ob.discharged a = true) :
-    ob.discharged (a ++ b) = true := by
-  unfold Obl.discharged at *
-  rw [List.any_append, h, Bool.true_or]
 
 /-- What has to be shown about the core of a step to carry the invariant over the event. -/
 structure CoreOk (c : Cfg) (past : List Event) (s : SpecSt) (e : Event) (m : Node) (outs : List Output) : Prop where
@@ -294,9 +217,6 @@ structure CoreOk (c : Cfg) (past : List Event) (s : SpecSt) (e : Event) (m : Nod
   keysFrom : ∀ k it, m.store.get k = some it →
     ∃ b, (b ∈ submitted (past ++ [e]) ∨ b ∈ received (past ++ [e])) ∧ b.key = k
   idkFrom : ∀ st, (lookupNat m.idk st).isSome = true → ∃ b ∈ submitted (past ++ [e]), (b.src, b.ts) = st
-  old : ∀ ob ∈ s.obls, ob.discharged outs = true ∨ lifetimeOk (nowAfter s.now e) ob.acceptedAt ob.b = false ∨
-    OblOk c (past ++ [e]) m ob
-  new : ∀ ob, newObl c s e = some ob → ob.discharged outs = true ∨ OblOk c (past ++ [e]) m ob
   peers : m.peers = peersAfter s.peers e
   pnodup : (m.peers.map (·.addr)).Nodup
 
@@ -318,74 +238,28 @@ theorem domain_prefix {a b : List Event} (h : Domain (a ++ b)) : Domain a := by
     exact h.disjoint x (by rw [submitted_append]; exact List.mem_append_left _ hx)
       y (by rw [received_append]; exact List.mem_append_left _ hy)
 
-/-- From the facts about the core of the step to the Spec clause and the invariant after the event. -/
+/-- From the facts about the core of the step to the invariant after the event. -/
 theorem rinv_of_core (c : Cfg) (env : Env) (past : List Event) (e : Event) (s : SpecSt) (n : Node)
-    (hdom : Domain (past ++ [e]))
     (hcore : CoreOk c past s e (stepCore env n e).1 (stepCore env n e).2) :
-    retainedFail c s (obsOf (e, (step env n e).2, (step env n e).1)) = none ∧
     RInv c (past ++ [e]) (specNext c s (obsOf (e, (step env n e).2, (step env n e).1))) (step env n e).1 := by
-  have hview : viewOf (step env n e).1 = viewOf (stepCore env n e).1 := rfl
-  have hstore : (step env n e).1.store = (stepCore env n e).1.store := rfl
-  -- every obligation alive after the event satisfies the invariant in the new state
-  have hall : ∀ ob ∈ oblsAfter c s (obsOf (e, (step env n e).2, (step env n e).1)),
-      OblOk c (past ++ [e]) (stepCore env n e).1 ob := by
-    intro ob hob
-    unfold oblsAfter at hob
-    rcases List.mem_filter.mp hob with ⟨hmem, hcond⟩
-    simp only [obsOf, Bool.and_eq_true, Bool.not_eq_true'] at hcond
-    have hnd : ob.discharged (stepCore env n e).2 = false := by
-      cases hd : ob.discharged (stepCore env n e).2
-      · rfl
-      · have := discharged_append (b := deletedKeys n.store (stepCore env n e).1.store) hd
-        have h2 : ob.discharged (step env n e).2 = true := this
-        rw [h2] at hcond
-        exact absurd hcond.1 (by simp)
-    rcases List.mem_append.mp hmem with h | h
-    · rcases hcore.old ob h with h1 | h1 | h1
-      · rw [hnd] at h1; cases h1
-      · rw [h1] at hcond; exact absurd hcond.2 (by simp)
-      · exact h1
-    · have hn : newObl c s e = some ob := by
-        cases hno : newObl c s e with
-        | none => simp [obsOf, hno] at h
-        | some ob' => simp [obsOf, hno] at h; rw [h]
-      rcases hcore.new ob hn with h1 | h1
-      · rw [hnd] at h1; cases h1
-      · exact h1
-  constructor
-  · unfold retainedFail
-    apply List.findSome?_eq_none_iff.mpr
-    intro ob hob
-    have := retained1_ok e (step env n e).2 hdom hcore.wf hcore.keysFrom (hall ob hob)
-    simpa [obsOf, hview] using this
-  · refine ⟨?_, hcore.cfg, ?_, rfl, ?_, hcore.idkFrom, ?_, ?_, hcore.pnodup⟩
-    · exact ⟨hcore.wf.keyed, hcore.wf.nodup⟩
-    · show nowAfter s.now e = (stepCore env n e).1.now
-      exact hcore.now.symm
-    · exact hcore.keysFrom
-    · intro ob hob
-      have := hall ob hob
-      exact ⟨this.origin, this.dst, this.hop, this.item⟩
-    · show peersAfter s.peers e = (stepCore env n e).1.peers
-      exact hcore.peers.symm
+  refine ⟨?_, hcore.cfg, ?_, rfl, ?_, hcore.idkFrom, ?_, hcore.pnodup⟩
+  · exact ⟨hcore.wf.keyed, hcore.wf.nodup⟩
+  · show nowAfter s.now e = (stepCore env n e).1.now
+    exact hcore.now.symm
+  · exact hcore.keysFrom
+  · show peersAfter s.peers e = (stepCore env n e).1.peers
+    exact hcore.peers.symm
 
 
 /-! ### events that do not touch the store -/
-
-theorem newObl_none_of (c : Cfg) (s : SpecSt) (e : Event)
-    (h : ∀ b, e ≠ .submit b) (h' : ∀ b r, e ≠ .receive b r) : newObl c s e = none := by
-  cases e with
-  | submit b => exact absurd rfl (h b)
-  | receive b r => exact absurd rfl (h' b r)
-  | _ => rfl
 
 /-- An event whose core leaves the store as it is and cannot grow the IdKeeper. -/
 theorem core_storeSame (c : Cfg) (past : List Event) (s : SpecSt) (n m : Node) (e : Event) (outs : List Output)
     (inv : RInv c past s n) (hs : m.store = n.store) (hc : m.cfg = n.cfg) (hn : m.now = nowAfter s.now e)
     (hi : ∀ st, (lookupNat m.idk st).isSome = true → (lookupNat n.idk st).isSome = true)
-    (hnew : newObl c s e = none) (hp : m.peers = peersAfter s.peers e)
+    (hp : m.peers = peersAfter s.peers e)
     (hpn : (m.peers.map (·.addr)).Nodup) : CoreOk c past s e m outs := by
-  refine ⟨⟨?_, ?_⟩, hc.trans inv.cfg, hn, ?_, ?_, ?_, ?_, hp, hpn⟩
+  refine ⟨⟨?_, ?_⟩, hc.trans inv.cfg, hn, ?_, ?_, hp, hpn⟩
   · rw [hs]; exact inv.wf.keyed
   · rw [hs]; exact inv.wf.nodup
   · intro k it hg
@@ -395,17 +269,11 @@ theorem core_storeSame (c : Cfg) (past : List Event) (s : SpecSt) (n m : Node) (
   · intro st hst
     rcases inv.idkFrom st (hi st hst) with ⟨b, hb, hk⟩
     exact ⟨b, mem_submitted_snoc hb, hk⟩
-  · intro ob hob
-    right; right
-    exact (inv.obls ob hob).frame (fun _ => mem_submitted_snoc) (fun _ => mem_received_snoc) (by rw [hs])
-  · intro ob hob
-    rw [hnew] at hob
-    cases hob
 
 theorem core_peerDown (c : Cfg) (env : Env) (past : List Event) (s : SpecSt) (n : Node) (a : Nat)
     (inv : RInv c past s n) :
     CoreOk c past s (.peerDown a) (stepCore env n (.peerDown a)).1 (stepCore env n (.peerDown a)).2 :=
-  core_storeSame c past s n _ _ _ inv rfl rfl inv.now.symm (fun _ h => h) rfl
+  core_storeSame c past s n _ _ _ inv rfl rfl inv.now.symm (fun _ h => h)
     (by simp [stepCore, peersAfter, inv.peers])
     (by
       simp only [stepCore]
@@ -415,7 +283,7 @@ theorem core_restart (c : Cfg) (env : Env) (past : List Event) (s : SpecSt) (n :
     (inv : RInv c past s n) :
     CoreOk c past s .restart (stepCore env n .restart).1 (stepCore env n .restart).2 :=
   core_storeSame c past s n _ _ _ inv rfl rfl inv.now.symm
-    (fun st h => by simp [stepCore, lookupNat] at h) rfl (by simp [stepCore, peersAfter])
+    (fun st h => by simp [stepCore, lookupNat] at h) (by simp [stepCore, peersAfter])
     (by simp [stepCore])
 
 /-! ### cleanTick -/
@@ -436,7 +304,7 @@ theorem core_cleanTick (c : Cfg) (env : Env) (past : List Event) (s : SpecSt) (n
     intro k
     simp only [stepCore, deleteExpired]
     exact Store.get_foldl_erase _ _ _
-  refine ⟨?_, inv.cfg, rfl, ?_, ?_, ?_, ?_, by simp [stepCore, deleteExpired, peersAfter, inv.peers],
+  refine ⟨?_, inv.cfg, rfl, ?_, ?_, by simp [stepCore, deleteExpired, peersAfter, inv.peers],
     by simp only [stepCore, deleteExpired]; exact inv.pnodup⟩
   · have := wf_foldl_erase (expiredKeys n.store t) { n with now := t } ⟨inv.wf.keyed, inv.wf.nodup⟩
     exact this
@@ -449,25 +317,6 @@ theorem core_cleanTick (c : Cfg) (env : Env) (past : List Event) (s : SpecSt) (n
   · intro st hst
     rcases inv.idkFrom st hst with ⟨b, hb, hk⟩
     exact ⟨b, mem_submitted_snoc hb, hk⟩
-  · intro ob hob
-    by_cases hl : lifetimeOk t ob.acceptedAt ob.b = true
-    · right; right
-      have hok := inv.obls ob hob
-      rcases hok.item with ⟨it, hg, _, _, _, hexp⟩
-      refine hok.frame (fun _ => mem_submitted_snoc) (fun _ => mem_received_snoc) ?_
-      rw [hget]
-      have : ob.b.key ∉ expiredKeys n.store t := by
-        intro hmem
-        unfold expiredKeys at hmem
-        have := (List.mem_filter.mp hmem).2
-        rw [hg] at this
-        simp only [decide_eq_true_eq] at this
-        exact hexp t hl this
-      simp [this]
-    · right; left
-      simpa [nowAfter] using hl
-  · intro ob hob
-    cases hob
 
 
 /-! ### peerUp / retryTick: checkPendingBundles -/
@@ -476,16 +325,16 @@ theorem mem_pendingKeys {s : Store} {k : Key} (h : k ∈ pendingKeys s) : ∃ it
   unfold pendingKeys at h
   exact Store.get_of_mem_keys (List.mem_filter.mp h).1
 
-theorem core_checkPending (c : Cfg) (hfix : c.holdFix = true) (env : Env) (past : List Event) (s : SpecSt)
+theorem core_checkPending (c : Cfg) (env : Env) (past : List Event) (s : SpecSt)
     (n n1 : Node) (e : Event) (inv : RInv c past s n)
     (hs : n1.store = n.store) (hcfg : n1.cfg = n.cfg) (hnow : n1.now = n.now) (hidk : n1.idk = n.idk)
-    (hev : nowAfter s.now e = s.now) (hnew : newObl c s e = none)
+    (hev : nowAfter s.now e = s.now)
     (hp : n1.peers = peersAfter s.peers e) (hpn : (n1.peers.map (·.addr)).Nodup) :
     CoreOk c past s e (checkPending env n1).1 (checkPending env n1).2 := by
   have w1 : WF n1 := ⟨by rw [hs]; exact inv.wf.keyed, by rw [hs]; exact inv.wf.nodup⟩
   unfold checkPending
   rcases dispatchKeys_kstep env (pendingKeys n1.store) n1 w1 with ⟨w', e', o', i', _⟩
-  refine ⟨w', (e'.cfg.trans hcfg).trans inv.cfg, ?_, ?_, ?_, ?_, ?_, e'.peers.trans hp, by rw [e'.peers]; exact hpn⟩
+  refine ⟨w', (e'.cfg.trans hcfg).trans inv.cfg, ?_, ?_, ?_, e'.peers.trans hp, by rw [e'.peers]; exact hpn⟩
   · rw [hev, e'.now, hnow, inv.now]
   · intro k it hg
     have : ∃ it0, n.store.get k = some it0 := by
@@ -499,57 +348,23 @@ theorem core_checkPending (c : Cfg) (hfix : c.holdFix = true) (env : Env) (past 
     rw [i', hidk] at hst
     rcases inv.idkFrom st hst with ⟨b, hb, hk⟩
     exact ⟨b, mem_submitted_snoc hb, hk⟩
-  · intro ob hob
-    by_cases hl : lifetimeOk (nowAfter s.now e) ob.acceptedAt ob.b = true
-    · have hok := inv.obls ob hob
-      rcases hok.item with ⟨it, hg, hst, hsb, htag, hexp⟩
-      have hg1 : n1.store.get ob.b.key = some it := by rw [hs]; exact hg
-      have hfw : forwardable n1.now it.bundle := by
-        rw [hnow, ← inv.now, ← hev]
-        exact forwardable_congr _ hsb (forwardable_of_ok _ _ _ hl hok.hop)
-      have hdst : hasEndpoint n1.cfg it.bundle.dst = false := by
-        rw [hcfg, inv.cfg, hsb.2.2.2.1]; exact hok.dst
-      have := dispatchKeys_kept env ob.b.key (pendingKeys n1.store) n1 it w1
-        (by rw [hcfg, inv.cfg]; exact hfix) hg1 hst (fun _ => ⟨hfw, hdst⟩)
-      rcases this with h | h
-      · left
-        exact discharged_of_okSent h htag hsb.key
-      · right; right
-        rcases h.stable with ⟨it', g', s', b', x'⟩
-        refine ⟨?_, hok.dst, hok.hop, it', g', s', by rw [b']; exact hsb, by rw [b']; exact htag, ?_⟩
-        · have := hok.origin
-          cases hstr : ob.strict
-          · simp only [hstr, Bool.false_eq_true, if_false] at this ⊢
-            exact mem_received_snoc this
-          · simp only [hstr, if_true] at this ⊢
-            exact mem_submitted_snoc this
-        · intro t ht
-          rw [x']
-          exact hexp t ht
-    · right; left
-      cases h : lifetimeOk (nowAfter s.now e) ob.acceptedAt ob.b
-      · rfl
-      · exact absurd h hl
-  · intro ob hob
-    rw [hnew] at hob
-    cases hob
 
-theorem core_retryTick (c : Cfg) (hfix : c.holdFix = true) (env : Env) (past : List Event) (s : SpecSt) (n : Node)
+theorem core_retryTick (c : Cfg) (env : Env) (past : List Event) (s : SpecSt) (n : Node)
     (inv : RInv c past s n) :
     CoreOk c past s .retryTick (stepCore env n .retryTick).1 (stepCore env n .retryTick).2 :=
-  core_checkPending c hfix env past s n n .retryTick inv rfl rfl rfl rfl rfl rfl
+  core_checkPending c env past s n n .retryTick inv rfl rfl rfl rfl rfl
     (by simp [peersAfter, inv.peers]) inv.pnodup
 
-theorem core_peerUp (c : Cfg) (hfix : c.holdFix = true) (env : Env) (past : List Event) (s : SpecSt) (n : Node)
+theorem core_peerUp (c : Cfg) (env : Env) (past : List Event) (s : SpecSt) (n : Node)
     (p : Peer) (inv : RInv c past s n) :
     CoreOk c past s (.peerUp p) (stepCore env n (.peerUp p)).1 (stepCore env n (.peerUp p)).2 := by
   simp only [stepCore]
   split
   · rename_i h
-    exact core_checkPending c hfix env past s n n (.peerUp p) inv rfl rfl rfl rfl rfl rfl
+    exact core_checkPending c env past s n n (.peerUp p) inv rfl rfl rfl rfl rfl
       (by simp [peersAfter, inv.peers, h]) inv.pnodup
   · rename_i h
-    refine core_checkPending c hfix env past s n _ (.peerUp p) inv rfl rfl rfl rfl rfl rfl
+    refine core_checkPending c env past s n _ (.peerUp p) inv rfl rfl rfl rfl rfl
       (by simp [peersAfter, inv.peers, h]) ?_
     simp only [List.map_append, List.map_cons, List.map_nil]
     refine List.nodup_append.mpr ⟨inv.pnodup, by simp, ?_⟩
@@ -611,7 +426,7 @@ theorem submit_fresh (c : Cfg) (past fut : List Event) (b : Bundle) (hdom : Doma
       rcases inv.idkFrom (b.src, b.ts) (by rw [hl]; rfl) with ⟨a, ha, hst⟩
       exact absurd hst (hsubne a ha)
 
-theorem core_submit (c : Cfg) (hfix : c.holdFix = true) (hexp : c.expiryNow = true) (env : Env)
+theorem core_submit (c : Cfg) (env : Env)
     (past fut : List Event) (b : Bundle) (hdom : Domain (past ++ .submit b :: fut)) (s : SpecSt) (n : Node)
     (inv : RInv c past s n) :
     CoreOk c past s (.submit b) (stepCore env n (.submit b)).1 (stepCore env n (.submit b)).2 := by
@@ -651,7 +466,7 @@ theorem core_submit (c : Cfg) (hfix : c.holdFix = true) (hexp : c.expiryNow = tr
   have hpast : submitted (past ++ [.submit b]) = submitted past ++ [b] := by rw [submitted_append]; rfl
   have hbnew : b ∈ submitted (past ++ [.submit b]) := by rw [hpast]; exact List.mem_append_right _ List.mem_cons_self
   simp only [stepCore]
-  refine ⟨hstep.wf inv.wf, hstep.env.cfg.trans inv.cfg, ?_, ?_, ?_, ?_, ?_,
+  refine ⟨hstep.wf inv.wf, hstep.env.cfg.trans inv.cfg, ?_, ?_, ?_,
     by rw [hstep.env.peers]; simp [peersAfter, inv.peers], by rw [hstep.env.peers]; exact inv.pnodup⟩
   · rw [hstep.env.now, ← inv.now]; rfl
   · intro k it hg
@@ -665,41 +480,11 @@ theorem core_submit (c : Cfg) (hfix : c.holdFix = true) (hexp : c.expiryNow = tr
     · rcases inv.idkFrom st h with ⟨a, ha, hk⟩
       exact ⟨a, mem_submitted_snoc ha, hk⟩
     · exact ⟨b, hbnew, h.symm⟩
-  · intro ob hob
-    right; right
-    have hok := inv.obls ob hob
-    refine hok.frame (fun _ => mem_submitted_snoc) (fun _ => mem_received_snoc) (hstep.other _ ?_)
-    have := hok.origin
-    cases hstr : ob.strict
-    · simp only [hstr, Bool.false_eq_true, if_false] at this
-      exact key_ne_of_st (hrecne _ this)
-    · simp only [hstr, if_true] at this
-      exact key_ne_of_st (hsubne _ this)
-  · intro ob hob
-    simp only [newObl] at hob
-    split at hob
-    · rename_i hcond
-      cases hob
-      simp only [Bool.and_eq_true, Bool.not_eq_true', beq_iff_eq] at hcond
-      obtain ⟨⟨⟨hsrc, hdst⟩, hlife⟩, hhop⟩ := hcond
-      have hsrc' : hasEndpoint n.cfg b.src = true := by rw [inv.cfg]; simp [hasEndpoint, hsrc]
-      have hdst' : hasEndpoint n.cfg b.dst = false := by rw [inv.cfg]; exact hasEndpoint_false_of hdst
-      have hf : forwardable n.now b := by rw [← inv.now]; exact forwardable_of_ok _ _ _ hlife hhop
-      rcases sendBundle_kept env b n (by rw [inv.cfg]; exact hfix) hfresh hidk hsrc' hf hdst' with h | h
-      · left; exact discharged_of_okSent h (fun _ => rfl) rfl
-      · right
-        rcases h with ⟨it, hg, hst, hb, he⟩
-        refine ⟨by simpa using hbnew, by rw [← inv.cfg]; exact hdst', hhop, it, hg, hst,
-          by rw [hb]; exact SameBody.refl _, fun _ => by rw [hb], ?_⟩
-        intro t ht
-        rw [he, inv.cfg, ← inv.now]
-        exact calcExpires_ok c hexp t s.now b ht
-    · cases hob
 
 
 /-! ### receive -/
 
-theorem core_receive (c : Cfg) (hfix : c.holdFix = true) (hexp : c.expiryNow = true) (env : Env)
+theorem core_receive (c : Cfg) (env : Env)
     (past fut : List Event) (b : Bundle) (r : Option Eid) (hdom : Domain (past ++ .receive b r :: fut))
     (s : SpecSt) (n : Node) (inv : RInv c past s n) :
     CoreOk c past s (.receive b r) (stepCore env n (.receive b r)).1 (stepCore env n (.receive b r)).2 := by
@@ -716,7 +501,7 @@ theorem core_receive (c : Cfg) (hfix : c.holdFix = true) (hexp : c.expiryNow = t
   have hpast : received (past ++ [.receive b r]) = received past ++ [b] := by rw [received_append]; rfl
   have hbnew : b ∈ received (past ++ [.receive b r]) := by rw [hpast]; exact List.mem_append_right _ List.mem_cons_self
   simp only [stepCore]
-  refine ⟨hstep.wf inv.wf, hstep.only.env.cfg.trans inv.cfg, ?_, ?_, ?_, ?_, ?_,
+  refine ⟨hstep.wf inv.wf, hstep.only.env.cfg.trans inv.cfg, ?_, ?_, ?_,
     by rw [hstep.only.env.peers]; simp [peersAfter, inv.peers], by rw [hstep.only.env.peers]; exact inv.pnodup⟩
   · rw [hstep.only.env.now, ← inv.now]; rfl
   · intro k it hg
@@ -729,94 +514,30 @@ theorem core_receive (c : Cfg) (hfix : c.holdFix = true) (hexp : c.expiryNow = t
     rw [hstep.idk] at hst
     rcases inv.idkFrom st hst with ⟨a, ha, hk⟩
     exact ⟨a, mem_submitted_snoc ha, hk⟩
-  · intro ob hob
-    have hok := inv.obls ob hob
-    by_cases hk : ob.b.key = b.key
-    · -- a duplicate of a waiting bundle
-      have horig := hok.origin
-      cases hstr : ob.strict
-      · simp only [hstr, Bool.false_eq_true, if_false] at horig
-        rcases hok.item with ⟨it, hg, hst, hsb, htag, hexpok⟩
-        have hg' : n.store.get b.key = some it := by rw [← hk]; exact hg
-        rcases receive_known env b r n it hg' hst with ⟨_, hkept⟩
-        right; right
-        rcases hkept.stable with ⟨it', g', s', b', x'⟩
-        have htag' : ob.strict = true → it'.bundle.tag = ob.b.tag := by
-          intro h; rw [hstr] at h; cases h
-        have hexp' : ExpOk ob it' := by
-          intro t ht
-          rw [x']
-          exact hexpok t ht
-        exact ⟨by simp only [hstr, Bool.false_eq_true, if_false]; exact mem_received_snoc horig,
-          hok.dst, hok.hop, it', by rw [hk]; exact g', s', by rw [b']; exact hsb, htag', hexp'⟩
-      · simp only [hstr, if_true] at horig
-        exact absurd hk (key_ne_of_st (hsubne _ horig))
-    · right; right
-      exact hok.frame (fun _ => mem_submitted_snoc) (fun _ => mem_received_snoc) (hstep.only.other _ hk)
-  · intro ob hob
-    simp only [newObl] at hob
-    split at hob
-    · rename_i hcond
-      cases hob
-      simp only [Bool.and_eq_true, Bool.not_eq_true'] at hcond
-      obtain ⟨⟨⟨⟨hdst, hlife⟩, hhop⟩, hdel⟩, hnone⟩ := hcond
-      have hfresh : n.store.get b.key = none := by
-        rw [inv.prev, viewOf_get] at hnone
-        cases hg : n.store.get b.key with
-        | none => rfl
-        | some it => simp [hg] at hnone
-      have hdst' : hasEndpoint n.cfg b.dst = false := by rw [inv.cfg]; exact hasEndpoint_false_of hdst
-      have hf : forwardable n.now b := by rw [← inv.now]; exact forwardable_of_ok _ _ _ hlife hhop
-      rcases receive_new env b r n (by rw [inv.cfg]; exact hfix) hfresh hdel hf hdst' with h | h
-      · left; exact discharged_of_okSent h (fun h => by cases h) rfl
-      · right
-        rcases h with ⟨it, hg, hst, hb, he⟩
-        refine ⟨by simpa using hbnew, by rw [← inv.cfg]; exact hdst', hhop, it, hg, hst,
-          by rw [hb]; exact SameBody.refl _, fun _ => by rw [hb], ?_⟩
-        intro t ht
-        rw [he, inv.cfg, ← inv.now]
-        exact calcExpires_ok c hexp t s.now b ht
-    · cases hob
+
 
 /-! ## Every history -/
 
-theorem rinv_step (c : Cfg) (hfix : c.holdFix = true) (hexp : c.expiryNow = true) (env : Env)
+theorem rinv_step (c : Cfg) (env : Env)
     (past fut : List Event) (e : Event) (hdom : Domain (past ++ e :: fut)) (s : SpecSt) (n : Node)
     (inv : RInv c past s n) :
-    retainedFail c s (obsOf (e, (step env n e).2, (step env n e).1)) = none ∧
     RInv c (past ++ [e]) (specNext c s (obsOf (e, (step env n e).2, (step env n e).1))) (step env n e).1 := by
-  have hdom' : Domain (past ++ [e]) := by
-    have : past ++ e :: fut = (past ++ [e]) ++ fut := by simp
-    rw [this] at hdom
-    exact domain_prefix hdom
-  apply rinv_of_core c env past e s n hdom'
+  apply rinv_of_core c env past e s n
   cases e with
-  | submit b => exact core_submit c hfix hexp env past fut b hdom s n inv
-  | receive b r => exact core_receive c hfix hexp env past fut b r hdom s n inv
-  | peerUp p => exact core_peerUp c hfix env past s n p inv
+  | submit b => exact core_submit c env past fut b hdom s n inv
+  | receive b r => exact core_receive c env past fut b r hdom s n inv
+  | peerUp p => exact core_peerUp c env past s n p inv
   | peerDown a => exact core_peerDown c env past s n a inv
-  | retryTick => exact core_retryTick c hfix env past s n inv
+  | retryTick => exact core_retryTick c env past s n inv
   | cleanTick t => exact core_cleanTick c env past s n t inv
   | restart => exact core_restart c env past s n inv
 
-theorem retained_run (c : Cfg) (hfix : c.holdFix = true) (hexp : c.expiryNow = true) (env : Env) :
-    ∀ (fut past : List Event) (s : SpecSt) (n : Node) (i : Nat), Domain (past ++ fut) → RInv c past s n →
-    firstFail retainedFail c s i ((trace env n fut).map obsOf) = none
-  | [], _, _, _, _, _, _ => rfl
-  | e :: fut, past, s, n, i, hdom, inv => by
-    simp only [trace, List.map_cons, firstFail]
-    rcases rinv_step c hfix hexp env past fut e hdom s n inv with ⟨h1, h2⟩
-    rw [h1]
-    simp only
-    exact retained_run c hfix hexp env fut (past ++ [e]) _ _ (i + 1) (by simpa using hdom) h2
-
 theorem rinv_init (c : Cfg) (now : Nat) : RInv c [] (SpecSt.init now) (init c now) := by
-  refine ⟨⟨?_, ?_⟩, rfl, rfl, rfl, ?_, ?_, ?_, rfl, ?_⟩
+  refine ⟨⟨?_, ?_⟩, rfl, rfl, rfl, ?_, ?_, rfl, ?_⟩
   · intro k it h; simp [init, Store.get] at h
   · simp [init, Store.keys]
   · intro k it h; simp [init, Store.get] at h
   · intro st h; simp [init, lookupNat] at h
-  · intro ob h; simp [SpecSt.init] at h
   · simp [init]
 
 end Dtn7.Node
